@@ -107,6 +107,25 @@ theorem run_fm (a : Args) (algo : Algo) :
   · simp [h]
   · simp [h]
 
+theorem firstFiring_mem (a : Args) (l : List (Guard × Err)) (c : Err)
+    (h : firstFiring a l = some c) : ∃ g, (g, c) ∈ l := by
+  induction l with
+  | nil => simp [firstFiring] at h
+  | cons p rest ih =>
+    obtain ⟨g, c'⟩ := p
+    simp only [firstFiring] at h
+    split at h
+    · exact ⟨g, by simp_all⟩
+    · obtain ⟨g', hg'⟩ := ih h
+      exact ⟨g', List.mem_cons_of_mem _ hg'⟩
+
+theorem prologue_ne_ok (e : Entry) : ∀ p ∈ prologue e, p.2 ≠ .Ok := by
+  cases e <;> decide
+
+theorem dims_ne_ok (e : Entry) (ds : List Nat) (bad : Err) (h : dims e = some (ds, bad)) :
+    bad ≠ .Ok := by
+  cases e <;> simp [dims] at h <;> (obtain ⟨_, rfl⟩ := h; decide)
+
 /-! ### Data sets -/
 
 namespace Data
